@@ -28,15 +28,16 @@ var repoDir = func() string {
 const repoMod = "github.com/rpcpool/yellowstone-faithful"
 
 type Engine struct {
-	fset      *token.FileSet
-	pkgs      map[string]*packages.Package // by import path
-	contracts map[string]*ContractSet      // by import path
-	theories  *ContractSet
-	typeCache map[string]types.Type
-	assigned  map[string]map[*types.Var]bool
-	inits     map[*types.Var]ast.Expr
-	funcLits  map[*ast.FuncLit]*Unit
-	verifDir  string
+	fset       *token.FileSet
+	pkgs       map[string]*packages.Package // by import path
+	contracts  map[string]*ContractSet      // by import path
+	theories   *ContractSet
+	typeCache  map[string]types.Type
+	assigned   map[string]map[*types.Var]bool
+	inits      map[*types.Var]ast.Expr
+	funcLits   map[*ast.FuncLit]*Unit
+	finalCache map[string][]int
+	verifDir   string
 }
 
 func newEngine(verifDir string) *Engine {
@@ -272,6 +273,103 @@ type UnitResult struct {
 	HavocAll        bool
 	Ctx             *Ctx
 	unit            *Unit
+}
+
+// finalFields: for a named struct type of a repository package, the indices of the fields declared `final` in that
+// package's contract files and VALIDATED: the declaring package assigns them (or takes their address) only inside the
+// listed constructor functions; composite literals are always allowed. Fields that fail the check are reported once and
+// not treated as final.
+func (eng *Engine) finalFields(nm *types.Named) []int {
+	if nm == nil || nm.Obj().Pkg() == nil || !eng.isRepoPkg(nm.Obj().Pkg().Path()) {
+		return nil
+	}
+	key := nm.Obj().Pkg().Path() + "." + nm.Obj().Name()
+	if eng.finalCache == nil {
+		eng.finalCache = map[string][]int{}
+	}
+	if v, ok := eng.finalCache[key]; ok {
+		return v
+	}
+	var out []int
+	eng.finalCache[key] = nil
+	st, ok := nm.Underlying().(*types.Struct)
+	p := eng.pkgs[nm.Obj().Pkg().Path()]
+	if !ok || p == nil {
+		return nil
+	}
+	cs := eng.contractsOf(nm.Obj().Pkg().Path())
+	for _, fd := range cs.Finals {
+		if fd.Type != nm.Obj().Name() {
+			continue
+		}
+		allowed := map[string]bool{}
+		for _, f := range fd.In {
+			allowed[f] = true
+		}
+		for _, fname := range fd.Fields {
+			idx := -1
+			for i := 0; i < st.NumFields(); i++ {
+				if st.Field(i).Name() == fname {
+					idx = i
+				}
+			}
+			if idx < 0 {
+				fmt.Fprintf(os.Stderr, "vcgo: final %s.%s: no such field\n", fd.Type, fname)
+				continue
+			}
+			fv := st.Field(idx)
+			bad := ""
+			for _, f := range p.Syntax {
+				for _, d := range f.Decls {
+					fdecl, ok := d.(*ast.FuncDecl)
+					if !ok || fdecl.Body == nil {
+						continue
+					}
+					if obj, ok := p.TypesInfo.Defs[fdecl.Name].(*types.Func); ok && allowed[calleeKey(obj)] {
+						continue
+					}
+					isField := func(e ast.Expr) bool {
+						se, ok := ast.Unparen(e).(*ast.SelectorExpr)
+						if !ok {
+							return false
+						}
+						sel := p.TypesInfo.Selections[se]
+						return sel != nil && sel.Obj() == fv
+					}
+					ast.Inspect(fdecl.Body, func(n ast.Node) bool {
+						switch x := n.(type) {
+						case *ast.AssignStmt:
+							for _, l := range x.Lhs {
+								if isField(l) {
+									bad = eng.fset.Position(l.Pos()).String()
+								}
+							}
+						case *ast.IncDecStmt:
+							if isField(x.X) {
+								bad = eng.fset.Position(x.Pos()).String()
+							}
+						case *ast.UnaryExpr:
+							if x.Op == token.AND && isField(x.X) {
+								bad = eng.fset.Position(x.Pos()).String()
+							}
+						}
+						return true
+					})
+				}
+			}
+			if bad != "" {
+				fmt.Fprintf(os.Stderr, "vcgo: final %s.%s rejected: assigned or address-taken at %s outside the listed constructors\n", fd.Type, fname, bad)
+				continue
+			}
+			if fv.Exported() {
+				// other repository packages could assign an exported field: accepted, listed as an assumption
+				cs.Scan["final field exported (assumed not assigned by other packages)"]++
+			}
+			out = append(out, idx)
+		}
+	}
+	eng.finalCache[key] = out
+	return out
 }
 
 // allFuncKeys: the keys of every function with a body declared in non-test files of p, in source order.
